@@ -239,8 +239,9 @@ def run_check(pid, tier, seed, workers, only_unit=None, dump_instances=False, ti
         "wall_s": round(time.time() - t0, 2),
         "violations": nviol,
     }
-    os.makedirs(os.path.join(VERIF, "evidence"), exist_ok=True)
-    evp = os.path.join(VERIF, "evidence", f"{pid}.json")
+    evdir = os.path.join(VERIF, "evidence") if os.path.realpath(REPO) == "/repo" else os.path.join(VERIF, ".scratch", "evidence")
+    os.makedirs(evdir, exist_ok=True)  # runs against a scratch copy never touch the committed evidence
+    evp = os.path.join(evdir, f"{pid}.json")
     try:
         import jsonschema
 
